@@ -20,6 +20,7 @@ SITES = {
     "TopicTagCacheMatchesStore": "Topic.replyDelCred/tag-cache",
     "HonestSetAccepted": "Topic.replySetTags/tag-cache",
     "DelCredRemovesItsTag": "deleteCred",
+    "CreationStoresNoReservedTag": "initTopicNewGrp/replyCreateUser",
 }
 
 
@@ -72,7 +73,7 @@ def run(ctx):
         with open(os.path.join(ctx.specdir, "QueryTags.cfg"), "w") as fh:
             fh.write(tagcfg)
     witnesses = ["NeverDeniedSearch", "NeverMaskedSearchAllowed", "NeverSetDenied", "NeverSetOkWithImmutable",
-                 "NeverDelCredRemovesTag", "NeverDelCredOfLastTag", "NeverReaddAttempt"]
+                 "NeverDelCredRemovesTag", "NeverDelCredOfLastTag", "NeverReaddAttempt", "NeverCreateDenied", "NeverCreateWithMaskedOnlyTag"]
     for wname in witnesses:
         with open(os.path.join(ctx.specdir, "QueryTags_%s.cfg" % wname), "w") as fh:
             fh.write("\n".join(l for l in tagcfg.splitlines() if not l.startswith(("INVARIANTS", "PROPERTIES")))
@@ -86,7 +87,8 @@ def run(ctx):
            "VERIF_C19_L1": 5 if thorough else 4, "VERIF_C19_L4": 8 if thorough else 6, "VERIF_C19_L2": 5 if thorough else 4,
            "VERIF_C19_L3STRIDE": 1 if thorough else 5, "VERIF_C19_L3RAND": 4000 if thorough else 500,
            "VERIF_C19_RAND": 20000 if thorough else 2000, "VERIF_C19_TAGSTRIDE": 1 if thorough else 3,
-           "VERIF_C19_WALKS": 200 if thorough else 30, "VERIF_C19_HWALKS": 400 if thorough else 40}
+           "VERIF_C19_WALKS": 200 if thorough else 30, "VERIF_C19_HWALKS": 400 if thorough else 40,
+           "VERIF_C19_CRSTRIDE": 1 if thorough else 3}
     if os.environ.get("VERIF_C19_SELFTEST"):
         env["VERIF_C19_SELFTEST"] = os.environ["VERIF_C19_SELFTEST"]
 
@@ -110,7 +112,7 @@ def run(ctx):
         return ctx.go_test_must_run("./", "^TestVerifC19Record$", env=env, timeout=1500)
 
     results = {}
-    with concurrent.futures.ThreadPoolExecutor(max_workers=9) as ex:
+    with concurrent.futures.ThreadPoolExecutor(max_workers=11) as ex:
         futs = [ex.submit(u1_parse, it) for it in u1] + [ex.submit(u1_tags, None)] + [ex.submit(u1_witness, w) for w in witnesses]
         frec = ex.submit(record, None)
         for f in futs:
@@ -163,6 +165,7 @@ def run(ctx):
     nontriv = sum(1 for v in vectors if (v["op"] == "parse" and any(r["err"] or r["req"] or r["opt"] for r in v["res"]))
                   or (v["op"] == "normalize" and v["raw"]) or (v["op"] == "restricted" and (v["fold"] or v["fnew"] or not v["eq"]))
                   or (v["op"] == "settags" and (v["code"] != 304)) or (v["op"] == "fnd" and v["q"])
+                  or (v["op"] == "create" and v["raw"])
                   or (v["op"] == "hist" and (v["storedPre"] != v["storedPost"] or v["code"] >= 400)))
     ctx.cov.update({
         "states": sum(t.distinct for t in results.values()) + r2.distinct,
@@ -173,6 +176,8 @@ def run(ctx):
                 "{rest,email} as immutable/masked. Real code: parseSearchQuery on every string of the same alphabets up to length %d/%d/%d, "
                 "term-vocabulary queries (all pairs%s, seeded longer ones) under all 16 configurations, seeded random strings; normalizeTags on all "
                 "lists of <=2 (sampled 3) of 20 raw tags; restrictedTagsEqual/filterRestrictedTags on all pairs of <=2-subsets of 9 tags x 4 namespace sets; "
+                "tags at creation time through the real initTopicNewGrp (new/nch) and replyCreateUser (anonymous, basic) over all lists of <=2 (seeded 3) of 16 raw tags "
+                "x 4 (immutable, masked) configurations incl. two where the sets differ, followed by {set tags} histories on the created object; "
                 "replySetTags single steps and seeded walks; histories on a live me topic through the real handleMeta ({set tags}, {del what=cred}, "
                 "server-side credential tags): 216 scripted 'credential tag -> del cred -> set tags' histories + seeded walks, stored and cached tags after every step; fnd handler on 7 tag sets x 17 queries x 4 masked sets x 3 levels x public/private x e-mail indexing"
                 % (u1[0][2], u1[1][2], u1[2][2], env["VERIF_C19_L1"], env["VERIF_C19_L4"], env["VERIF_C19_L2"], "" if thorough else " every 5th"),
@@ -184,9 +189,9 @@ def run(ctx):
     ctx.assumptions += [
         "what 'looks like' an e-mail / phone / login is what the real validators (net/mail, libphonenumber) and the basic authenticator accept; the model "
         "spells out the e-mail and login rules and tabulates the phone numbers of the vector domain (binding checked, zero divergences)",
-        "characters outside the modelled universe (ASCII letters/digits, e-acute, SP, TAB, and , \" : @ . _ + - % ' ! ? #) behave like their class",
-        "account / topic creation (user.go:72, init_topic.go:573) applies the same two calls normalizeTags + restrictedTagsEqual(tags, nil, immutable) "
-        "that are recorded at function level; the creating handlers themselves are not driven",
+        "characters outside the modelled universe (ASCII letters/digits, e-acute, u-umlaut, CJK ideographs, SP, TAB, and , \" : @ . _ + - % ' ! ? #) behave like their class",
+        "creation is driven at initTopicNewGrp / replyCreateUser level (hub registration, session handshake and the adapters are not run; "
+        "store.Topics.Create / store.Users.Create are recording stubs)",
         "server-side additions of credential tags ({set cred} with a valid response) are simulated: the store adds the tag and the topic takes the "
         "returned list as replySetCred does (topic.go:2951); {del what=cred} and {set tags} go through the real Topic.handleMeta",
         "the recording store mirrors the SQL adapters' UserUpdateTags (and the reference adapter memadp): an empty tag list is returned as a nil slice",
